@@ -1,44 +1,64 @@
 //! Probes of the tool chain itself (not part of any property).
 use std::cell::RefCell;
-pub struct Holder { pub a: RefCell<Vec<f64>>, pub b: RefCell<Vec<f64>>, pub m: RefCell<Vec<(char, usize)>> }
-#[inline(never)]
-fn mk(cap: usize) -> Holder {
-    let a = RefCell::new(Vec::with_capacity(cap));
-    let b = RefCell::new(Vec::with_capacity(cap));
-    let m = RefCell::new(Vec::new());
-    Holder { a, b, m }
+pub struct Holder { pub buffer: Vec<(u32, usize)>, pub limit: usize }
+fn mk(limit: usize) -> Holder {
+    Holder { buffer: Vec::with_capacity(limit * 2), limit }
 }
 pub fn vec_growth() {
-    let h = mk(0);
-    let v = &mut *h.a.borrow_mut();
-    v.clear();
-    let a = [0.5f64, 1.0];
-    v.extend(a.iter().map(|x| *x));
-    assert!(v[1] == 1.0);
-    crate::witness!(true, "end");
+    use lucid_suggest_core::verif_hooks::TrigramIndex;
+    use lucid_suggest_core::Record;
+    use crate::txt::{any_txt, Mode};
+    let mut index = TrigramIndex::new();
+    let t = any_txt::<1, 1>([(0, 1)], true, Mode::Plain);
+    let rec = Record { ix: 0, id: 100, title: t.own(), rating: 0 };
+    index.add(&rec);
+    let q = any_txt::<1, 1>([(0, 1)], true, Mode::Plain);
+    let got = index.prepare(&q.text(), 1);
+    assert!(got.len() <= 1);
+    crate::witness!(got.len() == 1, "end");
+    std::mem::forget(rec); std::mem::forget(index); std::mem::forget(got);
 }
 pub fn vec_growth_ext() {
-    let h = mk(2);
-    let m = &mut *h.m.borrow_mut();
-    m.clear();
-    m.push(('a', 1));
-    m.push(('b', 2));
-    assert!(m[1].1 == 2);
+    use lucid_suggest_core::verif_hooks::LimitSort;
+    let items = [(crate::nd::any_u32(), 0usize)];
+    let mut it = items.iter().copied().limit_sort_unstable(0, |a, b| a.0.cmp(&b.0));
+    assert!(it.next().is_none());
     crate::witness!(true, "end");
 }
 pub fn vec_growth3() {
-    let h = mk(2);
-    let v = &mut *h.a.borrow_mut();
-    v.clear();
-    let a = [0.5f64, 1.0, 3.0];
-    v.extend(a.iter().map(|x| *x));
-    assert!(v[2] == 3.0);
+    use lucid_suggest_core::verif_hooks::TrigramIndex;
+    use lucid_suggest_core::Record;
+    use crate::txt::{any_txt, Mode};
+    let mut index = TrigramIndex::new();
+    let t = any_txt::<1, 1>([(0, 1)], true, Mode::Plain);
+    let rec = Record { ix: 0, id: 100, title: t.own(), rating: 0 };
+    index.add(&rec);
+    assert!(index.verif_len() == 1);
     crate::witness!(true, "end");
+    std::mem::forget(rec); std::mem::forget(index);
+}
+pub fn vec_growth4() {
+    use lucid_suggest_core::verif_hooks as vh;
+    use crate::txt::{any_txt, Mode};
+    unsafe { vh::DAMLEV_CAPACITY = 3; }
+    let r = any_txt::<2, 1>([(0, 2)], true, Mode::Full);
+    let q = any_txt::<2, 1>([(0, 2)], true, Mode::Full);
+    let (rt, qt) = (r.text(), q.text());
+    let m = vh::word_match(&rt.view(0), &qt.view(0));
+    if let Some((rm, qm)) = &m { assert!(rm.subslice.1 <= 2); }
+    crate::witness!(m.is_some(), "match reachable");
+    std::mem::forget(m);
 }
 #[cfg_attr(kani, kani::proof)]
+#[cfg_attr(kani, kani::stub(core::slice::sort::unstable::sort, crate::stubs::unstable_sort_model))]
+pub fn probe_vec_growth4() { vec_growth4() }
+#[cfg_attr(kani, kani::proof)]
+#[cfg_attr(kani, kani::stub(core::slice::sort::unstable::sort, crate::stubs::unstable_sort_model))]
 pub fn probe_vec_growth() { vec_growth() }
 #[cfg_attr(kani, kani::proof)]
+#[cfg_attr(kani, kani::stub(std::vec::Vec::with_capacity, crate::stubs::vec_with_capacity))]
 pub fn probe_vec_growth_ext() { vec_growth_ext() }
 #[cfg_attr(kani, kani::proof)]
+#[cfg_attr(kani, kani::stub(core::slice::sort::unstable::sort, crate::stubs::unstable_sort_model))]
 pub fn probe_vec_growth3() { vec_growth3() }
-pub const ALL: &[(&str, fn())] = &[("probe_vec_growth", probe_vec_growth as fn()), ("probe_vec_growth_ext", probe_vec_growth_ext as fn()), ("probe_vec_growth3", probe_vec_growth3 as fn())];
+pub const ALL: &[(&str, fn())] = &[("probe_vec_growth", probe_vec_growth as fn()), ("probe_vec_growth_ext", probe_vec_growth_ext as fn()), ("probe_vec_growth3", probe_vec_growth3 as fn()), ("probe_vec_growth4", probe_vec_growth4 as fn())];
